@@ -1340,6 +1340,11 @@ class Evaluator:
             # the same over a name that is bound to a short display:  pair = [a, b]; [f(x) for x in pair]
             it0 = self._t(g0.iter, at, R)
             h0 = c.head_of(it0)
+            if h0 and h0[0] == "gphi" and isinstance(g0.iter, ast.Name) and len(c.args_of(it0)) <= 8:
+                # a comprehension over "one of several sequences" is one of several comprehensions
+                ar = c.args_of(it0)
+                return self._mk_gphi([(ar[i], self.with_bound({g0.iter.id: ar[i + 1]})._comp(e, at, R))
+                                      for i in range(0, len(ar), 2)])
             if h0 and h0[0] in ("list", "tuple") and len(h0) == 1 and 1 <= len(c.args_of(it0)) <= 4 and \
                     not any((c.head_of(x) or ("",))[0] == "star" for x in c.args_of(it0)):
                 return c.mk(("list",), [self.with_bound({g0.target.id: el})._t(e.elt, at, R) for el in c.args_of(it0)])
